@@ -22,10 +22,14 @@ CLASS_DTYPES = {"Signal": ["float64", "complex64"], "RadioSignal": ["float32", "
                 "BasebandSignal": ["complex128", "complex64"], "DualPolarizationSignal": ["complex128", "complex64"]}
 
 
-def sym_array(name, shape, dtype, backend="numpy"):
-    """Array with uninterpreted contents."""
+def sym_array(name, shape, dtype, backend="numpy", nm=None):
+    """Array with uninterpreted contents (symbolic mode) or deterministic coded contents
+    (concrete mode, for replay / the bounded layer)."""
     dt = dtype if isinstance(dtype, DType) else DType(dtype)
     nd = len(shape)
+    if nm is not None and nm.concrete:
+        from .concrete import code_value
+        return SArr(shape, lambda ix: code_value(name, ix, dt.kind), dt, backend, name=name)
     if dt.kind == "c":
         fre = z3.Function(f"{name}_re", *([z3.IntSort()] * nd), z3.RealSort())
         fim = z3.Function(f"{name}_im", *([z3.IntSort()] * nd), z3.RealSort())
@@ -43,12 +47,15 @@ def sym_array(name, shape, dtype, backend="numpy"):
 
 
 def mk_signal(interp, ctx, name, clsname, extra_rank=0, dtype=None, backend="numpy", has_t0=True,
-              align="center", pol="linear", has_meta=False, min_len=0, dims=None):
+              align="center", pol="linear", has_meta=False, min_len=0, dims=None, nm=None):
     """Build a symbolic, well-formed signal of class `clsname` by running the real constructor.
 
     Symbolic: length N >= min_len, every free sample dimension >= 1, sample_rate > 0,
     start_time (when has_t0), center_freq, chan_bw > 0 (non-baseband).  Concrete per instance:
     class, rank, dtype tag, backend, presence of start_time/meta, alignment and pol strings."""
+    if nm is None:
+        from .concrete import SymNamer
+        nm = SymNamer()
     cls = interp.repo.get_class(f"pulsarbat.core.{clsname}")
     rank = REQ_RANK[clsname] + extra_rank
     shape = []
@@ -59,17 +66,17 @@ def mk_signal(interp, ctx, name, clsname, extra_rank=0, dtype=None, backend="num
         elif fixed is not None:
             shape.append(fixed)
         else:
-            d = z3.Int(f"{name}_N" if ax == 0 else f"{name}_S{ax}")
-            ctx.assume(d >= (min_len if ax == 0 else 1), why="input-wf")
+            d = nm.int(f"{name}_N" if ax == 0 else f"{name}_S{ax}")
+            ctx.assume(V.le((min_len if ax == 0 else 1), d), why="input-wf")
             shape.append(d)
     dt = dtype or DEFAULT_DTYPE[clsname]
-    data = sym_array(f"{name}_data", shape, dt, backend)
-    sr = z3.Real(f"{name}_sr")
-    ctx.assume(sr > 0, why="input-wf")
+    data = sym_array(f"{name}_data", shape, dt, backend, nm)
+    sr = nm.real(f"{name}_sr")
+    ctx.assume(V.lt(0, sr), why="input-wf")
     kw = {"sample_rate": Qty(sr, FREQ_DIM, interp.stubs.units["Hz"])}
     t0 = None
     if has_t0:
-        t0 = STime(z3.Real(f"{name}_t0"), "isot", 9)
+        t0 = STime(nm.real(f"{name}_t0"), "isot", 9)
         kw["start_time"] = t0
     ghost = {"data": data, "sr": kw["sample_rate"], "t0": t0, "meta": None}
     if has_meta:
@@ -77,14 +84,14 @@ def mk_signal(interp, ctx, name, clsname, extra_rank=0, dtype=None, backend="num
         kw["meta"] = dict(ghost["meta"])
     names = [c.name for c in cls.mro()]
     if "RadioSignal" in names:
-        cf = Qty(z3.Real(f"{name}_cf"), FREQ_DIM, interp.stubs.units["Hz"])
+        cf = Qty(nm.real(f"{name}_cf"), FREQ_DIM, interp.stubs.units["Hz"])
         kw["center_freq"] = cf
         ghost["cf"] = cf
         if "BasebandSignal" in names:
             ghost["bw"] = kw["sample_rate"]
         else:
-            bw = z3.Real(f"{name}_bw")
-            ctx.assume(bw > 0, why="input-wf")
+            bw = nm.real(f"{name}_bw")
+            ctx.assume(V.lt(0, bw), why="input-wf")
             kw["chan_bw"] = Qty(bw, FREQ_DIM, interp.stubs.units["Hz"])
             ghost["bw"] = kw["chan_bw"]
         kw["freq_align"] = align
